@@ -165,10 +165,11 @@ theorem cnlLogG_restrict (nests : List (CNest ℝ)) (V av : Int → ℝ) (i : In
 theorem cnlMuLogG_restrict (nests : List (CNest ℝ)) (mu : ℝ) (V av : Int → ℝ) (i : Int)
     (hav : avail av i = true) :
     cnlMuLogG (nests.map (restrictCNest av)) mu V av i = cnlMuLogG nests mu V av i := by
-  unfold cnlMuLogG
+  unfold cnlMuLogG zeroMember
   rw [inSomeCNest_restrict nests av i hav,
     giTerms_restrict (cnlMuTerm mu V av) (cnlMuTerm mu V av) av i hav
-      (fun m a => cnlMuTerm_restrict mu V av m i a)]
+      (fun m a => cnlMuTerm_restrict mu V av m i a),
+    giTerms_restrict (fun _ _ a => a) (fun _ _ a => a) av i hav (fun _ _ => rfl)]
 
 theorem cnlP_drop (nests : List (CNest ℝ)) (alts : List Int) (V av : Int → ℝ) (c : Int)
     (hc : c ∈ alts) :
